@@ -49,7 +49,7 @@ class C11(Check):
                    'the must-be-zero clause is one-directional (the code may zero more, e.g. spline rejections and region growth)',
                    'output pixels within 1e-6 pixel (float32 grids: 1e-3 pixel) of a good input pixel are free (boundary band)',
                    'reproduction is asserted only >= 5 input pixels away from any bad pixel or edge, for noise-free inputs of period >= 60 px']
-    REQUIRED_COUNTERS = ('calls_1d', 'calls_2d', 'calls_no_ivar', 'must_be_zero_pixels', 'nonzero_ivar_pixels_interp_checked',
+    REQUIRED_COUNTERS = ('tiny_flux_unit_cases', 'calls_1d', 'calls_2d', 'calls_no_ivar', 'must_be_zero_pixels', 'nonzero_ivar_pixels_interp_checked',
                          'allbad_cases', 'disjoint_grid_cases', 'reproduction_cases', 'scaling_cases', 'deredshift_cases',
                          'method_traditional', 'method_noconst', 'method_mean', 'method_damp', 'method_nothing', 'float32_cases',
                          'isolated_good_pixel_cases', 'multi_group_cases')
@@ -177,7 +177,8 @@ class C11(Check):
             iv, pat = self._mask(rng, g, n, rng.choice(['none', 'edges', 'runs']))
             shift = 0.0 if rng.random() < 0.5 else rng.uniform(0.05, 0.95)
             return {'kind': cls, 'n': n, 'l0': l0, 'dl': dl, 'period': per, 'amp': amp, 'level': rng.uniform(5, 20), 'const': const,
-                    'iv': iv.tolist(), 'shift': shift, 'c': rng.choice([2.0, 0.5, 3.7, 1e3, 1e-3, -1.0]), 'method': meth, 'pattern': pat}
+                    'iv': iv.tolist(), 'shift': shift, 'c': rng.choice([2.0, 0.5, 3.7, 1e3, 1e-3, -1.0, 1e-10, 1e-17, 1e12]), 'method': meth, 'pattern': pat,
+                    'unit': rng.choice([1.0, 1.0, 1e-17, 1e5])}
         if cls == 'deredshift':
             n = rng.randint(300, 600)
             nobj = rng.randint(1, 3)
@@ -285,9 +286,10 @@ class C11(Check):
     def _smooth_case(self, case):
         n, l0, dl = case['n'], case['l0'], case['dl']
         ll = l0 + dl * np.arange(n)
-        sig = (lambda L: np.full_like(L, case['level'])) if case['const'] else \
-            (lambda L: case['level'] + case['amp'] * np.sin((L - l0) / dl * 2 * np.pi / case['period']))
-        iv = np.array(case['iv'])
+        unit = case.get('unit', 1.0)       # flux units (e.g. erg/s/cm^2/A ~ 1e-17): flux * unit, ivar / unit^2
+        sig = (lambda L: np.full_like(L, case['level'] * unit)) if case['const'] else \
+            (lambda L: unit * (case['level'] + case['amp'] * np.sin((L - l0) / dl * 2 * np.pi / case['period'])))
+        iv = np.array(case['iv']) / unit ** 2
         nl = ll + case['shift'] * dl
         return ll, sig, iv, nl
 
@@ -305,7 +307,7 @@ class C11(Check):
         if not self._basic(out, f, i, nl, 'reproduce'):
             return
         far = self._far_from_bad(ll, iv, nl, dl)
-        amp = max(abs(case['level']), case['amp'])
+        amp = max(abs(case['level']), case['amp']) * case.get('unit', 1.0)
         if far.any():
             out.expect(bool(np.all(i[far] > 0)), 'reproduce', 'good, smooth region lost its inverse variance (%d pixels)' % int((i[far] == 0).sum()))
             dev = float(np.abs(f[far] - sig(nl[far])).max())
@@ -313,6 +315,7 @@ class C11(Check):
             out.expect(dev <= lim, 'reproduce', 'resampled flux deviates from the smooth input by %.3g (limit %.3g; shift %.2f px, const=%s)'
                        % (dev, lim, case['shift'], case['const']))
         out.count('reproduction_cases')
+        out.count('tiny_flux_unit_cases', case.get('unit', 1.0) < 1e-10)
         out.nontrivial = True
 
     def run_scaling(self, case, out):
@@ -329,6 +332,7 @@ class C11(Check):
         out.expect(float(np.abs(f2 - c * f1).max()) <= 1e-9 * abs(c) * fs, 'scaling', 'flux does not scale by c=%g (dev %.3g)' % (c, float(np.abs(f2 - c * f1).max())))
         out.expect(float(np.abs(i2 * c ** 2 - i1).max()) <= 1e-9 * max(float(i1.max()), 1e-300), 'scaling', 'ivar does not scale by 1/c^2')
         out.count('scaling_cases')
+        out.count('tiny_flux_unit_cases', case.get('unit', 1.0) < 1e-10 or abs(c) < 1e-9)
         out.nontrivial = True
 
     def run_deredshift(self, case, out):
